@@ -6,6 +6,10 @@ package main
 func famElementwise(g *Gen) {
 	g.nontr = true
 	ds := g.shape(0, 6, 3)
+	if g.chance(0.06) {
+		ds = g.shapeBig()
+		g.tag("large-tensor")
+	}
 	a := g.leafDistinct(ds, false, -3, 3)
 	// unary
 	for i := 0; i < 2; i++ {
@@ -97,6 +101,15 @@ func famLinalg(g *Gen) {
 	if prod(s1) > 150 || prod(s2) > 150 || len(s1) > 6 || len(s2) > 6 {
 		s1, s2 = []int{m, n}, []int{n, k}
 	}
+	if g.chance(0.08) {
+		// matrices large enough to cross blocking / packing thresholds
+		m, n, k = 3+g.intn(8), 8+g.intn(4), 8+g.intn(4)
+		s1, s2 = []int{m, n}, []int{n, k}
+		if g.chance(0.4) {
+			s1, s2 = []int{2, m, n}, []int{n, k}
+		}
+		g.tag("large-matrices")
+	}
 	a := g.leafDistinct(s1, false, -2, 2)
 	b := g.leafDistinct(s2, false, -2, 2)
 	ab, o := g.do(Cmd{Op: OpMatMul, T: a, U: T(b)})
@@ -146,7 +159,14 @@ func famReduce(g *Gen) {
 	g.nontr = true
 	ds := g.shape(0, 6, 3)
 	var a int
-	if g.chance(0.3) {
+	if g.chance(0.12) {
+		ds = g.shapeBig()
+		g.tag("large-tensor")
+	}
+	if g.chance(0.15) {
+		a = g.leafVals(ds, g.valsOffset(prod(ds)), false)
+		g.tag("large-offset-values")
+	} else if g.chance(0.3) {
 		// ties
 		vals := make([]float64, prod(ds))
 		for i := range vals {
@@ -157,7 +177,14 @@ func famReduce(g *Gen) {
 	} else {
 		a = g.leafDistinct(ds, false, -3, 3)
 	}
+	big := prod(ds) > 200
 	for k := 0; k < 7; k++ {
+		if big && (k == 4 || k == 5) {
+			// the model's expression for Var/Std is quadratic in the element count (the mean is repeated
+			// inside every term): large tensors are checked against the specification directly
+			g.directVar(a, k == 5, -1)
+			continue
+		}
 		g.do(Cmd{Op: OpReduce, K: k, T: a})
 	}
 	for i := 0; i < 4; i++ {
@@ -166,6 +193,10 @@ func famReduce(g *Gen) {
 			dim = g.intn(len(ds))
 		}
 		k := g.intn(7)
+		if big && (k == 4 || k == 5) {
+			g.directVar(a, k == 5, dim)
+			continue
+		}
 		g.do(Cmd{Op: OpAlong, K: k, T: a, Z: dim})
 		g.tag(redNames[k] + "-along")
 	}
@@ -176,6 +207,10 @@ func famReduce(g *Gen) {
 func famIndexing(g *Gen) {
 	g.nontr = true
 	ds := g.shape(0, 6, 3)
+	if g.chance(0.05) {
+		ds = g.shapeBig()
+		g.tag("large-tensor")
+	}
 	a := g.leafDistinct(ds, false, -9, 9)
 	g.do(Cmd{Op: OpNElems, T: a})
 	g.do(Cmd{Op: OpShape, T: a})
